@@ -279,7 +279,6 @@ func (e *Engine) callSites(fn *ssa.Function) []ssa.CallInstruction {
 	return e.sites[fn]
 }
 
-
 // callResultTypes: possible dynamic types of result 0 of a call to a module
 // function, pruning the callee's returns that (a) contradict what is known about
 // the arguments at the call site, or (b) return a non-nil error when the caller
